@@ -127,11 +127,11 @@ func (l *basicLoader) SetEntry(name px.TypedName, entry px.LoaderEntry) px.Loade
 	if old, ok := l.namedEntries[name.MapKey()]; ok {
 		ov := old.Value()
 		if ov == nil {
-			*old.(*loaderEntry) = *entry.(*loaderEntry)
-			return old
+			l.namedEntries[name.MapKey()] = entry
+			return entry
 		}
 		nv := entry.Value()
-		if ov == nv {
+		if ov == nv || nv == nil {
 			return old
 		}
 		if ea, ok := ov.(px.Equality); ok && ea.Equals(nv, nil) {
